@@ -132,6 +132,43 @@ def gen_nodes(n, cname):
     return g
 
 
+PBF_RANGES = {'small': (-60, 60), 'medium': (1 << 27, (1 << 34) - 1), 'negative': (-(1 << 34), -(1 << 27)), 'extreme': ((1 << 62), (1 << 63) - 1)}
+
+
+def h_pbf_object(I, job):
+    """plain node / way / relation through PBFOutputFormat::node / way / relation and SerializeBlob, then through the reader kernels; dumps must agree"""
+    kind = job['kind']; low = job.get('low', 0)
+    fm = I.new_obj(8 * 6, 'fields', 'heap')
+    base = {0: [5, 3, 9, 11, 123456789, -87654321], 1: [9, 2, 0, 0, 0, 77], 2: [9, 2, 0, 0, 0, 0]}[kind]
+    symf = {0: [(0, 'id'), (1, 'version'), (2, 'changeset'), (3, 'uid')], 1: [(0, 'id'), (2, 'ref0'), (3, 'ref1'), (4, 'ref2')], 2: [(0, 'id'), (2, 'mref0'), (3, 'mref1'), (4, 'mref2'), (5, 'mref3')]}[kind]
+    vals = list(base)
+    for (k, nm) in symf:
+        v = I.named(nm, 64); t = I.term(v, 64)
+        if nm in ('version', 'changeset', 'uid'): I.assume(z3.And(t >= 0, t <= (job['u32'] if ('u32' in job and nm == 'changeset') else (1 << 31) - 1)))        # PBF stores version and uid as int32, changeset as int64
+        else:
+            lo, hi = PBF_RANGES[job['cls'][len([x for x in symf[:symf.index((k, nm))]]) % len(job['cls'])]]
+            I.assume(z3.And(t >= lo, t <= hi))
+        vals[k] = v
+    for k, v in enumerate(vals): I.store(fm + 8 * k, i64, v if isinstance(v, Sym) else v & ((1 << 64) - 1))
+    cap = 512
+    o1 = I.new_obj(cap, 'dump1', 'heap'); l1 = I.new_obj(4, 'l1', 'heap'); o2 = I.new_obj(cap, 'dump2', 'heap'); l2 = I.new_obj(4, 'l2', 'heap')
+    rc = I.concretize(I.call('@verif_pbf_object_roundtrip', [kind, fm, low, o1, l1, o2, l2, cap]), 'rc'); I.observe('rc', rc)
+    if rc != 0: raise Finding('reader-rejects', 'the PBF reader rejects (rc=%d) the block the PBF writer produced' % rc)
+    n1 = I.concretize(I.load(l1, i32), 'len1'); n2 = I.concretize(I.load(l2, i32), 'len2'); I.observe('lens', (n1, n2))
+    if n1 != n2: raise Finding('roundtrip', 'the object read back has a different shape (%d vs %d dump bytes)' % (n2, n1))
+    k = 0
+    while k < n1:
+        if k + 8 <= n1:
+            a, b = I.load(o1 + k, i64), I.load(o2 + k, i64)
+            if isinstance(a, Sym) or isinstance(b, Sym): I.obligation(I.icmp('eq', 64, a, b), 'roundtrip', 'a field (dump offset %d) differs after writing and reading the object as PBF' % k)
+            elif a != b: raise Finding('roundtrip', 'a field differs after writing and reading the object as PBF (dump offset %d: %d vs %d)' % (k, a, b))
+            k += 8
+        else:
+            if I.concretize(I.load(o1 + k, i8), 'b') != I.concretize(I.load(o2 + k, i8), 'b'): raise Finding('roundtrip', 'a string differs after the PBF round trip')
+            k += 1
+    I.reach('end')
+
+
 def harnesses(tier):
     q = tier == 'quick'
     mds = [(15, 1), (0, 0), (5, 1), (10, 0)]
@@ -156,6 +193,11 @@ def harnesses(tier):
         Harness('pbf_dense_block_roundtrip', 'codec', h_pbf_nodes, jobs=jobs, testgen=lambda rnd: [dict(_job=0, **t) for t in gen_nodes(n, 'small')(rnd)],
                 desc='%d nodes with symbolic id / version / timestamp / changeset / uid / visible / location through PrimitiveBlock::add_dense_node + DenseNodes::serialize + SerializeBlob (no compression), then length prefix, decode_blob_header, decode_blob and PBFPrimitiveBlockDecoder: every field comes back identical (or as its default when the metadata option drops it); the reader accepts what the writer wrote' % n,
                 bounds='%d nodes per block; id / version / changeset / uid / visible symbolic inside four magnitude classes; timestamps and coordinates concrete boundary values per class (their x1000/1000 and x100/100 conversions are 64-bit multiply/divide by constants, which bit-blasting does not decide in time: measured 53 s per query) (small / medium / large / extreme incl. the type boundaries and negative deltas) that fix the varint lengths; metadata subsets %s; no user names and tags (string table), no compression' % (n, 'sampled' if q else 'all 16 x visible flag with 2 nodes, the sampled four with 3 nodes'), wall=900 if q else 2400),
+        Harness('pbf_object_roundtrip', 'codec', h_pbf_object, wall=900,
+                jobs=[dict(kind=0, cls=['small']), dict(kind=0, cls=['extreme'], u32=(1 << 32) - 1), dict(kind=1, cls=['small', 'small', 'small', 'small']), dict(kind=1, cls=['medium', 'small', 'negative', 'medium']), dict(kind=1, cls=['negative', 'medium', 'medium', 'negative'], low=1),
+                      dict(kind=2, cls=['small']), dict(kind=2, cls=['medium', 'negative', 'medium', 'small', 'medium'])] + ([] if q else [dict(kind=1, cls=['extreme', 'negative', 'extreme', 'small']), dict(kind=2, cls=['negative', 'medium', 'small', 'negative', 'extreme']), dict(kind=1, cls=['small'], low=1)]),
+                desc='a plain node / a way with three node references (optionally with locations on ways) / a relation with four members (node, way, relation, node; roles sharing and not sharing string-table entries), each with user and one tag, through the real PBFOutputFormat::node / way / relation (string table, delta coding of references and member ids, metadata), SerializeBlob without compression, then length prefix, decode_blob_header, decode_blob and PBFPrimitiveBlockDecoder: the traversal dump of what is read equals that of the original; ids, references, member ids, version, changeset, uid symbolic inside magnitude classes that fix the varint lengths',
+                bounds='one object per block; symbolic 64-bit ids / references in the classes small (|v| <= 60), medium (2^27..2^34), negative, extreme (2^62..2^63-1); coordinates and timestamps concrete; no compression'),
         Harness('xml_discussion_reader_half', 'xml', C02.h_xml_discussion, jobs=[dict(n=k) for k in ((5, 7) if q else (3, 4, 5, 6, 7, 8, 9))], setup=C03.setup_xml,
                 tests=[dict(_job=0, ev0=1, ev1=2, ev2=3, ev3=4, ev4=7, ch0=65, ch1=66, ch2=67)],
                 desc='reader half of the XML round trip for changeset discussions: expat delivers the text of a comment in several character-data pieces whenever the writer escaped a character in it; XMLParser must deliver the concatenation (same harness as C02 xml_discussion_content)',
